@@ -65,7 +65,9 @@ func TestVF_C18_BigInt(t *testing.T) {
 		}
 		x := Convert(new(gobig.Int).Set(v))
 		rec.Case("integer/"+cls, cls != "random", "int|"+v.String())
-		rec.Sample(func() any { return map[string]any{"kind": "big.Int round trips", "class": cls, "bits": v.BitLen(), "negative": neg} })
+		rec.Sample(func() any {
+			return map[string]any{"kind": "big.Int round trips", "class": cls, "bits": v.BitLen(), "negative": neg}
+		})
 		fail := func(sig string, extra string) {
 			rec.Fail(rt, sig, map[string]any{"value": v.String(), "class": cls, "what": extra})
 		}
